@@ -142,6 +142,24 @@ def check(ctx):
                     ctx.ok('C02.O1', k2, site(body, mt['cs']),
                            '%s dominated by success edge of %s, unreachable from its failure edge' % (mname, wname),
                            {'ok_edges': re_.ok, 'err_edges': re_.err})
+            # O5 (single): an operation is left unapplied only on the false edge of will_apply
+            gates_ = [(b, t) for b, t in calls if cname(t) == WILL_APPLY]
+            refuse_edges = []
+            for gb, gt in gates_:
+                for sb, st in switch_on(body, gt['dest']['l']):
+                    tm = {int(v): tb for v, tb in st['targets']}
+                    refuse_edges.append((sb, tm.get(0, st['otherwise'])))
+                # through `Not`
+                for _b, _j, s_ in body.assigns():
+                    if s_['rv']['k'] == 'un' and s_['rv']['op'] == 'Not' and op_local(s_['rv']['a']) == gt['dest']['l']:
+                        for sb, st in switch_on(body, s_['lhs']['l']):
+                            tm = {int(v): tb for v, tb in st['targets']}
+                            refuse_edges.append((sb, st['otherwise'] if 0 in tm else tm.get(1)))
+            esc = set(body.return_blocks()) & body.reachable_from([0], avoid=[wb], avoid_edges=[e for e in refuse_edges if e[1] is not None])
+            ctx.ob('C02.O5', key + '|only-the-gate-skips', not esc, site(body, wt['cs']),
+                   'the handler returns without the storage write only on the refusing edge of will_apply' if not esc else
+                   'the handler can return without the storage write on a path other than the refusing edge of will_apply: a handed operation is '
+                   'silently not applied')
             # O1b: the fold is not optional once storage accepted the write
             starts = [e[1] for e in re_.ok]
             mblocks = [mb for mb, _mt in Ms]
@@ -205,6 +223,19 @@ def check(ctx):
                         recv = op_local(mt_['args'][0])
                         if recv is not None and 'filter::Filter' in body.local_ty(recv):
                             order_ok = True
+            # the only adaptor allowed to keep a handed document from storage is the will_apply gate
+            foreign = []
+            if it_arg is not None:
+                for meth, cdef, _cp, ab in adaptors:
+                    if meth in ('filter', 'filter_map', 'take', 'skip', 'step_by', 'take_while', 'skip_while', 'map_while'):
+                        pol = polarity(facts, cdef, lambda n: n == WILL_APPLY) if cdef else None
+                        if not (meth == 'filter' and pol and pol[0] == {True} and pol[1] == {False}):
+                            foreign.append(meth)
+            ctx.ob('C02.O5', key + '|only-the-gate-filters', not foreign, site(body, wt['cs']),
+                   'a document handed to the actor is kept from storage only by the will_apply gate' if not foreign else
+                   'besides the will_apply gate, `%s` keeps handed documents from storage (and from the set): operations the node was handed — e.g. '
+                   'removals for documents it does not hold — are silently not applied, so the next exchange lists them again and a stale write is '
+                   'later accepted' % ','.join(foreign))
             # nothing may drop items between the recording adaptor and storage
             late_drop = []
             if it_arg is not None:
